@@ -61,6 +61,8 @@ type modelState struct {
 	forkSeq        int
 	fnIDs          map[*ssa.Function]int64
 	extraVars      []*smt.Term
+	civilSeq       int
+	civilMemo      map[int][3]*smt.Term
 	pureMemo       map[*ssa.BasicBlock]bool
 	IfConverted    int
 	NoIfConv       bool
@@ -72,6 +74,8 @@ func (ex *Exec) modelReset() {
 	ex.branchMemo = nil
 	ex.fpSeq = 0
 	ex.extraVars = nil
+	ex.civilSeq = 0
+	ex.civilMemo = nil
 }
 
 func (ex *Exec) modelZero(t types.Type) value {
